@@ -1148,7 +1148,11 @@ class PyExec:
                 e = Sym(t, base.dtype if not base.dtype.startswith("float") else "float")
                 e.origin = (base, idx)
                 return [("val", e, st)]
-            return [("val", Arr(base.dtype, base.shape[n:], data=uid("row"), base=base), st)]
+            rowv = Arr(base.dtype, base.shape[n:], data=uid("row"), base=base)
+            cidx = [self.concrete(i) if isinstance(i, (Sym, Const)) else None for i in (idx if isinstance(idx, tuple) else (idx,))]
+            if all(c is not None for c in cidx):
+                rowv.data = "row_%s[%s]" % (base.data, ",".join(map(str, cidx)))
+            return [("val", rowv, st)]
         if isinstance(base, Ref):
             h = self.hooks.get(("getitem", self._clsname(st, base)))
             if h:
@@ -1518,7 +1522,7 @@ class PyExec:
             st.effects.append(("reshape", arr, a))
             return [("val", a, st)]
         if name == "arr.tobytes":
-            t = z3.Int(uid("bytes"))
+            t = z3.Int("rowbytes_" + selfv.data) if isinstance(selfv, Arr) and selfv.data.startswith("row_") else z3.Int(uid("bytes"))
             v = Sym(t, "bytes")
             v.origin = ("bytes", selfv)
             return [("val", v, st)]
